@@ -19,6 +19,7 @@ THEOREMS = [
     "TornadoModel.C06.present_deletable_prefix_refuted",
     "TornadoModel.C06.deleted_absent",
     "TornadoModel.C06.copy_equal",
+    "TornadoModel.C06.copy_behaves_as_multimap",
     "TornadoModel.C06.parse_str_roundtrip",
 ]
 TRUSTED = [
@@ -27,7 +28,8 @@ TRUSTED = [
 ]
 ASSUMPTIONS = [
     "header names are ASCII strings (str.capitalize on non-ASCII text is not modelled; add() rejects such names anyway)",
-    "aliasing between a map and its copy cannot be expressed in the (immutable) model; copy independence is decided by the correspondence stream only",
+    "aliasing between a map and its copy cannot be expressed in the (immutable) model: that the two Python objects share no mutable state is decided by the correspondence stream (copy cases: outputs of separate histories on both objects); the theorems cover the behaviour of each object",
+    "which field line a continuation line extends directly after a copy is not fixed by the property (oracle stops judging the copy there; the model pins the actual behaviour: the copy's last pair)",
 ]
 RULE = ("op sequences over a small name/value alphabet with case variants, valid/invalid values, obs-fold lines; "
         "names are legal tokens incl. letters directly after digits/_/./!/~/' etc. (P3P, X_Forwarded_For): every case "
@@ -48,7 +50,10 @@ CLAUSES = {
         "+ present_deletable / deleted_absent (the membership-only special case, immediate from the fixed __delitem__) "
         "+ present_deletable_prefix_refuted (the statement is false for the pre-fix __delitem__); the oracle also applies "
         "the clause directly to HTTPHeaders at probed points of every history (_present_probes)",
-    "copies are independent": "copy_equal (same entries) + tie only (aliasing between the two objects)",
+    "copies are independent": "copy_equal (same entries) + copy_behaves_as_multimap (every further history on the copy / "
+        "on the original gives the outputs of the copied / the original multimap) + tie only for the aliasing fact itself "
+        "(no shared mutable list between the two Python objects): copy cases run a history on one object and THEN one on "
+        "the other, via copy()/copy.copy/HTTPHeaders(h)/deepcopy/pickle, outputs of both compared with model and multimap",
     "serializing and parsing back yields an equal map": "parse_str_roundtrip",
 }
 PARALLEL = True
@@ -151,6 +156,23 @@ def _enum_cases(names, values, maxlen):
             yield {"kind": "ops", "ops": [list(o) for o in seq] + tail, "enum": True}
 
 
+def _enum_copy_cases(names, maxlen, vias):
+    """every short history x every single mutation of one object x every way of copying, then reads on the other"""
+    muts = [["add", n, "1"] for n in names] + [["set", n, "2"] for n in names] + [["del", n] for n in names] \
+        + [["get", n] for n in names] + [["parseLine", " c"]]
+    afters = [["add", names[0], "7"], ["set", names[-1], "8"], ["del", names[0]], ["parseLine", " k"],
+              ["parseLine", names[-1] + ": 9\r\n"]]
+    reads = [["get", names[0]], ["getList", names[-1]], ["contains", names[0]], ["getAll"], ["keys"], ["len"], ["str"]]
+    for L in range(0, maxlen + 1):
+        for seq in itertools.product(muts, repeat=L):
+            for a in afters:
+                for mutate in ("copy", "orig"):
+                    for via in vias:
+                        yield {"kind": "copy", "ops": [list(o) for o in seq], "after": [list(a), ["get", names[0]], ["getAll"]],
+                               "after2": [list(r) for r in reads] + [["add", names[0], "5"], ["get", names[0]]],
+                               "mutate": mutate, "via": via, "enum": True}
+
+
 def _case_patterns(base):
     """every upper/lower pattern of the letters of `base` (a lower-case token)"""
     pos = [i for i, c in enumerate(base) if c.isalpha()]
@@ -216,6 +238,11 @@ def gen_cases(rng, tier):
         yield from _enum_cases(["a", "A"], ["1"], 5)
         yield from _enum_cases(["P3P", "p3p", "P3p"], ["1"], 3)
         yield from _enum_cases(["X_Y", "x_y"], ["1"], 4)
+    if tier == "quick":
+        yield from _enum_copy_cases(["a", "A"], 2, ["copy", "deepcopy", "pickle"])
+    elif tier == "thorough":
+        yield from _enum_copy_cases(["a", "A", "b"], 2, ["copy", "copy.copy", "ctor", "deepcopy", "pickle"])
+        yield from _enum_copy_cases(["a", "A"], 3, ["copy", "deepcopy"])
     # every spelling of every short token against every other spelling of the same token (all tiers: the search
     # stage needs it too), and the same for the listed real-world style names
     yield from _sweep_cases(_family_pairs())
@@ -239,7 +266,9 @@ def gen_cases(rng, tier):
             yield {"kind": "ops", "ops": _rand_ops(rng, rng.randint(1, 30), names)}
         elif k < 0.8:
             yield {"kind": "copy", "ops": _rand_ops(rng, rng.randint(0, 12), names),
-                   "after": _rand_ops(rng, rng.randint(1, 6), names), "mutate": rng.choice(["copy", "orig"])}
+                   "after": _rand_ops(rng, rng.randint(1, 6), names), "mutate": rng.choice(["copy", "orig"]),
+                   "after2": _rand_ops(rng, rng.randint(0, 6), names),
+                   "via": rng.choice(["copy", "copy", "copy.copy", "ctor", "deepcopy", "pickle"])}
         else:
             text = "".join(_rand_line(rng, names) + rng.choice(["", "\n", "\r\n"]) for _ in range(rng.randint(0, 6)))
             yield {"kind": "parse", "text": text}
@@ -365,6 +394,39 @@ def _present_probes(ops):
     return bad
 
 
+def _via_pickle(h):
+    import pickle
+    return pickle.loads(pickle.dumps(h))
+
+
+def _via_deepcopy(h):
+    import copy
+    return copy.deepcopy(h)
+
+
+def _via_copycopy(h):
+    import copy
+    return copy.copy(h)
+
+
+def _via_ctor(h):
+    from tornado.httputil import HTTPHeaders
+    return HTTPHeaders(h)
+
+
+# every way of copying a header map; "deep" ones (deepcopy / pickle round trip) duplicate the whole object
+# state (cache, _last_key), the others go through the copy constructor (re-`add` every pair)
+_COPY_VIA = {"copy": lambda h: h.copy(), "copy.copy": _via_copycopy, "ctor": _via_ctor,
+             "deepcopy": _via_deepcopy, "pickle": _via_pickle}
+_DEEP = ("deepcopy", "pickle")
+
+
+def _copy_arg(case):
+    enc_ops = lambda ops: [[atom(o[0])] + o[1:] for o in ops]
+    return [enc_ops(case["ops"]), enc_ops(case["after"]), enc_ops(case.get("after2", [])),
+            atom("deep" if case.get("via", "copy") in _DEEP else "ctor"), atom(case["mutate"])]
+
+
 def run_impl(case):
     from tornado.httputil import HTTPHeaders
     if case["kind"] == "ops":
@@ -389,16 +451,18 @@ def run_impl(case):
         for op in case["ops"]:
             _apply(h, op)
         try:
-            c = h.copy()
+            c = _COPY_VIA[case.get("via", "copy")](h)
         except Exception as e:
             return {"copy": _exc(e)}
-        snap = lambda x: [[list(p) for p in x.get_all()], str(x), list(x), [x.get(k) for k in list(x)]]
+        snap = lambda x: [[list(p) for p in x.get_all()], str(x), list(x), [x.get_list(k) for k in list(x)], len(x)]
         before_copy = [list(p) for p in c.get_all()]
         target, other = (c, h) if case["mutate"] == "copy" else (h, c)
-        other_before = snap(other)
-        for op in case["after"]:
-            _apply(target, op)
-        return {"copy": before_copy, "independent": snap(other) == other_before}
+        other_before = snap(other)          # read-only snapshot (no h[k]: that would fill the other's cache)
+        outs = [_apply(target, op) for op in case["after"]]
+        independent = snap(other) == other_before
+        # ... and the OTHER object goes on with a history of its own: its outputs must not have seen `after`
+        outs2 = [_apply(other, op) for op in case.get("after2", [])]
+        return {"copy": before_copy, "independent": independent, "outs": outs, "outs2": outs2}
     raise AssertionError(case)
 
 
@@ -407,7 +471,7 @@ def model_requests(case, impl):
         return [line(ID, "run", [[atom(o[0])] + o[1:] for o in case["ops"]])]
     if case["kind"] == "parse":
         return [line(ID, "parse", case["text"])]
-    return [line(ID, "copy", [[atom(o[0])] + o[1:] for o in case["ops"]])]
+    return [line(ID, "copyrun", _copy_arg(case))]
 
 
 def _norm(v):
@@ -429,7 +493,9 @@ def model_result(case, replies):
         return _py(replies[0])
     if case["kind"] == "parse":
         return _py(replies[0])
-    return _py(replies[0])
+    st, vals = parse_reply(replies[0])
+    assert st == "ok", replies[0]
+    return [_norm(v) for v in vals]     # [error] or [pairs of the copy, outputs of `after`, outputs of `after2`]
 
 
 def impl_view(case, impl):
@@ -438,7 +504,9 @@ def impl_view(case, impl):
         return impl["outs"]
     if case["kind"] == "parse":
         return impl["pairs"]
-    return impl["copy"]
+    if isinstance(impl["copy"], str):
+        return [impl["copy"]]
+    return [impl["copy"], impl["outs"], impl["outs2"]]
 
 
 def _lines_keep_lf(text):
@@ -454,7 +522,7 @@ def spec_requests(case, impl):
         # parse(text) = the multimap after parse_line on every line (first error wins)
         return [line(ID, "spec", [[atom("parseLine"), l] for l in _lines_keep_lf(case["text"])]
                      + [[atom("getAll")], [atom("keys")]])]
-    return []
+    return [line(ID, "speccopyrun", _copy_arg(case))]
 
 
 def _ci(op, out):
@@ -499,6 +567,23 @@ def spec_violation(case, impl, replies):
             return None if impl["copy"] == "HTTPInputError" else "copy raised %s" % impl["copy"]
         if not impl["independent"]:
             return "mutating the %s changed the other map" % case["mutate"]
+        # both objects are multimaps in their own right: the copy = a fresh multimap with the same pairs
+        # (Spec.copy), the original = the multimap it was; each continues with its OWN history
+        st, vals = parse_reply(replies[0])
+        want = [_norm(v) for v in vals]
+        if _ci("getAll", want[0]) != _ci("getAll", impl["copy"]):
+            return "the copy holds %r, the multimap %r" % (impl["copy"], want[0])
+        who = (case["mutate"], "orig" if case["mutate"] == "copy" else "copy")
+        for ops, w_outs, g_outs, obj in ((case["after"], want[1], impl["outs"], who[0]),
+                                         (case.get("after2", []), want[2], impl["outs2"], who[1])):
+            for i, (op, w, g) in enumerate(zip(ops, w_outs, g_outs)):
+                if obj == "copy" and op[0] == "parseLine" and op[1][:1] in (" ", "\t"):
+                    # which field line a continuation line extends right after a copy (the last pair? the
+                    # original's last added one?) is not fixed by the property: not judged from here on
+                    # (the model correspondence still pins the actual behaviour)
+                    break
+                if _ci(op[0], w) != _ci(op[0], g):
+                    return "on the %s, op %d %r: multimap says %r, HTTPHeaders gave %r" % (obj, i, op, w, g)
         return None
     if case["kind"] == "parse":
         if isinstance(impl["pairs"], str) and impl["pairs"].startswith("Uncaught"):
@@ -528,6 +613,9 @@ def nontrivial(case, impl):
 
 def stats(case, impl):
     out = ["kind:" + case["kind"] + ("-sweep" if case.get("sweep") else "")]
+    if case["kind"] == "copy":
+        out += ["copy-via:" + case.get("via", "copy"), "copy-mutate:" + case["mutate"],
+                "copy:" + ("raised" if isinstance(impl["copy"], str) else "ok")]
     if case["kind"] == "ops":
         if any(len(o) > 1 and o[0] != "parseLine" and _LETTER_AFTER_NONLETTER.search(o[1]) for o in case["ops"]):
             out.append("names:letter-after-digit-or-punct")
@@ -545,6 +633,9 @@ def signature(case, impl, why):
             return "ops/present-deletable/" + ("not-deletable" if " gave " in why else "still-present")
         m = re.match(r"op \d+ \['(\w+)'", why)
         return "ops/%s/%s" % (m.group(1) if m else "roundtrip", "uncaught" if "Uncaught" in why else "wrong-output")
+    m = re.match(r"on the (\w+), op \d+ \['(\w+)'", why)
+    if m:
+        return "copy/%s/%s/%s" % (m.group(1), m.group(2), "uncaught" if "Uncaught" in why else "wrong-output")
     return case["kind"] + "/" + re.sub(r"[^a-zA-Z]+", "-", why)[:40]
 
 
@@ -559,9 +650,10 @@ def shrink(case):
         for i in range(len(ops)):
             yield {**case, "ops": ops[:i] + ops[i + 1:]}
     if case["kind"] == "copy":
-        a = case["after"]
-        for i in range(len(a)):
-            yield {**case, "after": a[:i] + a[i + 1:]}
+        for fld in ("after", "after2"):
+            a = case.get(fld, [])
+            for i in range(len(a)):
+                yield {**case, fld: a[:i] + a[i + 1:]}
     if case["kind"] == "parse":
         t = case["text"]
         for i in range(len(t)):
